@@ -1599,7 +1599,7 @@ def rule_K8(run: Run, prog: Program, only: set | None = None) -> int:
 
 # ------------------------------------------------------------------------------------------------ K9
 # delete / insert / take / append / unique are left out on purpose: the package uses np.delete with flat indices from np.ravel_multi_index
-FLATTENING_WITHOUT_AXIS = {"roll", "flip", "argmax", "argmin", "cumsum", "cumprod", "repeat"}
+FLATTENING_WITHOUT_AXIS = {"roll", "flip", "argmax", "argmin", "cumsum", "cumprod", "repeat", "vdot"}  # (vdot has no axis at all: it always flattens both operands)
 AXIS_DEFAULT_LAST = {"sort", "argsort", "diff", "trapz"}  # these default to the last axis, not to the flattened array
 
 
@@ -1631,7 +1631,8 @@ def rule_K9(run: Run, prog: Program, only: set | None = None) -> int:
     run.rule(
         "E6.K9",
         "numpy operations that act on the FLATTENED array when `axis` is omitted (roll, flip, argmax/argmin, cumsum, cumprod, repeat) are given an explicit axis wherever they are applied to coordinate-derived data in code a collection can "
-        "reach: without it the rows of a collection are mixed (a roll moves the last entry of one element into the next element)",
+        "reach: without it the rows of a collection are mixed (a roll moves the last entry of one element into the next element). np.vdot has no axis at all and always flattens; "
+        "np.linalg.solve reads a right-hand side without its own trailing axis as vectors or as a matrix depending on the number of dimensions",
     )
     tensor = prog.cls("Tensor")
     coll = prog.find_cls("TensorCollection")
@@ -1674,6 +1675,26 @@ def rule_K9(run: Run, prog: Program, only: set | None = None) -> int:
                 continue
             f = call.func
             name = f.attr if isinstance(f, ast.Attribute) else getattr(f, "id", "")
+            if name == "solve" and len(call.args) == 2 and isinstance(f, ast.Attribute) and is_coord(call.args[1]):
+                # np.linalg.solve(a, b): b is read as ONE vector per matrix only when it has exactly one dimension less than a; a stack of vectors for one matrix
+                # (a collection of hyperplanes for one quadric) is read as a matrix. The right-hand side needs its own trailing axis (b[..., None]).
+                b = call.args[1]
+                src = next((st.value for st in assigns if isinstance(b, ast.Name) and any(isinstance(t, ast.Name) and t.id == b.id for t in st.targets)), b)
+                columned = (isinstance(src, ast.Subscript) and any(isinstance(x, ast.Constant) and x.value is None for x in ast.walk(src.slice))) or (
+                    isinstance(src, ast.Call) and getattr(src.func, "attr", getattr(src.func, "id", "")) in ("expand_dims", "reshape", "atleast_2d", "stack", "column_stack"))
+                n += 1
+                loc = f"{fn.module.rel}:{call.lineno}"
+                label = ast.unparse(call)[:70]
+                if columned:
+                    run.add("E6.K9", fn.short, label, PROVEN, "the right-hand side has its own trailing axis", loc)
+                elif _scalar_guarded(fn, call):
+                    run.add("E6.K9", fn.short, label, PROVEN, "only reached for a single object (scalar / no-collection guard)", loc)
+                else:
+                    run.add("E6.K9", fn.short, label, VIOLATION,
+                            f"`{label}` hands np.linalg.solve coordinate vectors without a trailing axis: numpy reads them as one vector per matrix only when they have "
+                            f"exactly one dimension less than the matrices - a collection of vectors for a single matrix (or the reverse) is solved as a MATRIX right-hand "
+                            f"side, or raises", loc)
+                continue
             if name not in FLATTENING_WITHOUT_AXIS or name in AXIS_DEFAULT_LAST:
                 continue
             is_np = isinstance(f, ast.Attribute) and isinstance(f.value, ast.Name) and f.value.id in ("np", "numpy")
